@@ -18,6 +18,7 @@ EXPLANATION = (
     "the base-class constructor (which runs the election) or the first use. Does NOT decide behaviour "
     "on inputs violating several preconditions at once."
 )
+EXPLANATION += " Also decided (prerequisites and later clauses): the rating subclasses hand the user's limits to the validating constructor unmodified (C05.R5)."
 ASSUMPTIONS = ["distinct comparison atoms are treated as independent when comparing guards (propositional canonicalisation, no solving)",
                "Election.__init__ is the only place an election runs (C01.R2 who-may-call)"]
 TRUSTED = ["python ast module"]
